@@ -17,7 +17,8 @@ Import ListNotations.
    Hypotheses: nothing exists at or below the backup's directory beforehand
    (a fresh manager on a parent-closed tree that does not list the name), the
    selected files are not inside that directory, file-name components are
-   non-empty, not ".", without '/' and without control characters. *)
+   non-empty, not "." or "..", without '/' and without control characters
+   (valid_file; a leading period, blanks, length are not restricted). *)
 Theorem C18_crash_consistent :
   forall (b : name) (files : list path) (ts : str) (f0 : fs),
     (forall p, under (backup_dir b) p = true -> lookup f0 p = None) ->
@@ -44,6 +45,33 @@ Theorem C18_record_prefix_free :
     (n < length (dump ks ts) -> load (firstn n (dump ks ts)) = None).
 Proof. exact record_prefix_free_lemma. Qed.
 Print Assumptions C18_record_prefix_free.
+
+(* File and directory NAMES: the key recorded for a file and the place of its copy
+   keep EVERY directory component (also names that start with a period, contain
+   blanks, are long ...; only "", ".", "..", '/' and control characters are excluded):
+   the key maps back to the file, distinct files have distinct keys and distinct
+   copies, and the record has exactly one entry per distinct file. *)
+Theorem C18_record_one_entry_per_file :
+  forall files : list path,
+    NoDup files -> Forall valid_file files ->
+    length (keys_of files []) = length files /\
+    (forall f g, In f files -> In g files -> get_file_key f = get_file_key g -> f = g) /\
+    (forall f, In f files -> key_path (get_file_key f) = f).
+Proof. exact record_one_entry_per_file. Qed.
+Print Assumptions C18_record_one_entry_per_file.
+
+Theorem C18_backup_path_injective :
+  forall (b : name) (f g : path),
+    valid_file f -> valid_file g -> get_backup_path b f = get_backup_path b g -> f = g.
+Proof. exact backup_path_injective. Qed.
+Print Assumptions C18_backup_path_injective.
+
+(* sub/.orig/a, its twin sub/a and "..x y"/a are valid, keep their keys apart *)
+Example C18_dot_directories :
+  Forall valid_file ex_twins /\ NoDup ex_twins /\
+  map (fun f => key_path (get_file_key f)) ex_twins = ex_twins /\
+  length (keys_of ex_twins []) = 3.
+Proof. exact ex_dot_keys. Qed.
 
 (* Restore is byte-identical: after a successful create_backup, ANY sequence of
    writes, deletions and directory creations outside the backup's directory,
